@@ -305,6 +305,9 @@ class Unit:
         rules = it.get("desugar", [])
         approx = False
         hoisted = []
+        seg_off = 0
+        if "R-SEGMENT" in rules:
+            text, seg_off = splice.segment(text, it["segment"])
         if "R-SPAWN" in rules:
             text, hoisted = splice.hoist_spawn(text, it.get("spawn", []))
         if rules:
@@ -313,6 +316,9 @@ class Unit:
             approx = text.count("\n") != before_lines
         self._record(item, file, it["kind"], path, role)
         fn_id = path.split("::")[-1] if it["kind"] != "impl_fn" else path.replace("::", ".")
+        if "R-SEGMENT" in rules:
+            fn_id = fn_id.rsplit(".", 1)[0] + "." + it["segment"]["name"] if "." in fn_id else it["segment"]["name"]
+            approx = True
         hdr = "// ---- %s %s [%s] %s:%d-%d sha256=%s" % (it["kind"], path, role, file, item.line_start, item.line_end, item.sha256[:16])
         variants = [False] + ([True] if (twin and role == "verify" and it.get("twin", True)) else [])
         for is_twin in variants:
@@ -465,7 +471,12 @@ class Unit:
                     self.obligations.append(Obligation("%s#loop%d.decreases" % (pre, k), "D", fn_id, [], lp["decreases"]))
         # proof blocks
         for pb in it.get("proof_at", []):
-            off = self._pos(sh, pb["pos"], name)
+            try:
+                off = self._pos(sh, pb["pos"], name)
+            except SpliceError:
+                if pb.get("optional"):
+                    continue  # the obligation is then reported as not generated (undecided), the rest of the unit still runs
+                raise
             if pb.get("id"):
                 # a spliced assertion that restates a contract clause at a point where the needed values are in scope: an
                 # obligation of its own (kind A), so that its failure is reported like the clause's
